@@ -7,6 +7,7 @@ import (
 	"go/token"
 	"go/types"
 	"reflect"
+	"sort"
 	"strings"
 
 	"golang.org/x/tools/go/ssa"
@@ -688,6 +689,7 @@ func (R *Run) ruleBatchIndependent() {
 			carried = append(carried, phi.Comment+" ("+typeName(phi.Type())+")")
 		}
 	}
+	carried = append(carried, P.carriedCells(fn, header, nil)...)
 	R.check(len(carried) == 0, "batch-independent", fname(fn)+": loop over the request's fields", P.pos(fn.Pos()), "no per-entry state survives into the next iteration", "per-entry state is carried from one entry of the batch into the next: "+strings.Join(carried, ", ")+" — an entry without that sub-field is applied with the value left by the entry before it (wrong account renamed / overwritten)")
 }
 
@@ -798,4 +800,179 @@ func (R *Run) ruleCreateNoOverwrite() {
 	if n == 0 {
 		R.und("create-no-overwrite", fname(fn), P.pos(fn.Pos()), "no publishing step (rename / write of the account file) found in Create")
 	}
+}
+
+// carriedCells: state that survives from one iteration of the loop at header into the next through memory — a local
+// variable declared outside the loop (a decoder object reused "to save an allocation") of which some part is written in
+// one iteration (by a store, or by a call handed its address) and used in the next (read, or handed to a call again)
+// without having been overwritten as a whole in between. A read that only serves to re-slice to [:0] is a reset.
+func (P *Prog) carriedCells(fn *ssa.Function, header *ssa.BasicBlock, exclude func(*ssa.Alloc) bool) []string {
+	fromHeader := reachableFrom(header, nil)
+	inLoop := func(b *ssa.BasicBlock) bool {
+		return b == header || (fromHeader[b] && reachableFrom(b, nil)[header])
+	}
+	type access struct {
+		ins   ssa.Instruction
+		a     *ssa.Alloc
+		path  []int
+		write bool // store or call-write
+		full  bool // a store (covers exactly its path)
+		use   bool // load or call-use
+	}
+	var accs []access
+	cell := func(addr ssa.Value) (*ssa.Alloc, []int, bool) {
+		root, path := addrPath(stripSlice(addr))
+		a, ok := root.(*ssa.Alloc)
+		if !ok || a.Parent() != fn || inLoop(a.Block()) || exclude != nil && exclude(a) {
+			return nil, nil, false
+		}
+		return a, path, true
+	}
+	eachInstr(fn, func(ins ssa.Instruction) {
+		if !inLoop(ins.Block()) {
+			return
+		}
+		switch x := ins.(type) {
+		case *ssa.Store:
+			if a, p, ok := cell(x.Addr); ok {
+				accs = append(accs, access{ins: x, a: a, path: p, write: true, full: true})
+			}
+		case *ssa.UnOp:
+			if x.Op != token.MUL {
+				return
+			}
+			a, p, ok := cell(x.X)
+			if !ok {
+				return
+			}
+			onlyReset := x.Referrers() != nil && len(*x.Referrers()) > 0
+			for _, r := range *x.Referrers() {
+				switch y := r.(type) {
+				case *ssa.DebugRef:
+				case *ssa.Slice:
+					if hk, isK := constInt(y.High); !(isK && hk == 0 && y.Low == nil) {
+						onlyReset = false
+					}
+				default:
+					onlyReset = false
+				}
+			}
+			if !onlyReset {
+				accs = append(accs, access{ins: x, a: a, path: p, use: true})
+			}
+		case ssa.CallInstruction:
+			for _, arg := range x.Common().Args {
+				if _, isPtr := arg.Type().Underlying().(*types.Pointer); !isPtr {
+					if _, isSl := arg.Type().Underlying().(*types.Slice); !isSl {
+						if mi, isMI := arg.(*ssa.MakeInterface); !isMI {
+							continue
+						} else {
+							arg = mi.X
+						}
+					}
+				}
+				if a, p, ok := cell(arg); ok {
+					// handed to a call: may be read and may be written in part
+					accs = append(accs, access{ins: ins, a: a, path: p, write: true, use: true})
+				}
+			}
+		}
+	})
+	prefix := func(p, q []int) bool { // p is a prefix of q
+		if len(p) > len(q) {
+			return false
+		}
+		for i := range p {
+			if p[i] != q[i] && p[i] != -1 && q[i] != -1 {
+				return false
+			}
+		}
+		return true
+	}
+	idx := func(i ssa.Instruction) int { return instrIndex(i) }
+	var out []string
+	seenUse := map[string]bool{}
+	for _, u := range accs {
+		if !u.use {
+			continue
+		}
+		key := fmt.Sprint(u.a.Name(), u.path)
+		if seenUse[key] {
+			continue
+		}
+		// full stores that cover the use
+		covers := map[*ssa.BasicBlock][]ssa.Instruction{}
+		for _, w := range accs {
+			if w.full && w.a == u.a && prefix(w.path, u.path) {
+				covers[w.ins.Block()] = append(covers[w.ins.Block()], w.ins)
+			}
+		}
+		carriedFrom := ssa.Instruction(nil)
+		for _, w := range accs {
+			if !w.write || w.a != u.a || !(prefix(w.path, u.path) || prefix(u.path, w.path)) {
+				continue
+			}
+			// forward from just after w, looking for u after the header was crossed, without passing a covering store
+			type st struct {
+				b       *ssa.BasicBlock
+				crossed bool
+			}
+			seen := map[st]bool{}
+			found := false
+			var walk func(b *ssa.BasicBlock, from int, crossed bool)
+			walk = func(b *ssa.BasicBlock, from int, crossed bool) {
+				if found || !inLoop(b) {
+					return
+				}
+				if from == 0 {
+					k := st{b, crossed}
+					if seen[k] {
+						return
+					}
+					seen[k] = true
+				}
+				// instructions of b after position from
+				stopAt := len(b.Instrs)
+				for _, c := range covers[b] {
+					if i := idx(c); i >= from && i < stopAt {
+						stopAt = i
+					}
+				}
+				if b == u.ins.Block() && crossed {
+					if i := idx(u.ins); i >= from && i <= stopAt {
+						// (a call that both uses and covers: the use comes first)
+						found = true
+						return
+					}
+				}
+				if stopAt < len(b.Instrs) {
+					return
+				}
+				for _, sc := range b.Succs {
+					walk(sc, 0, crossed || sc == header)
+				}
+			}
+			walk(w.ins.Block(), idx(w.ins)+1, false)
+			if found {
+				carriedFrom = w.ins
+				break
+			}
+		}
+		if carriedFrom != nil {
+			seenUse[key] = true
+			out = append(out, fmt.Sprintf("variable %s: what %s left there (%s) is used by the next iteration at %s", u.a.Comment, shortIns(carriedFrom), P.ipos(carriedFrom), P.ipos(u.ins)))
+		}
+	}
+	sort.Strings(out)
+	return out
+}
+
+func shortIns(i ssa.Instruction) string {
+	switch x := i.(type) {
+	case *ssa.Store:
+		return "a store"
+	case ssa.CallInstruction:
+		return "the call of " + calleeName(x.Common())
+	}
+	return "an instruction"
 }
